@@ -58,6 +58,8 @@ func c12Requests() []req {
 		fmt.Fprintf(&longYml, "- chord: {degree: \"%d\", name: m7}\n  values: [\"1\", \"1/2\"]\n", 1+i%7)
 	}
 	rs := []req{
+		{"text parse BOM syntax error", []string{"text", "parse"}, "\ufeffC[1] D[1]\n"},
+		{"text conv degree BOM syntax error", []string{"text", "conv", "degree"}, "\ufeff1[1] 5_7[1]\n"},
 		{"text conv long with modulations", []string{"text", "conv", "syllable"}, modul.String()},
 		{"write long", []string{"write"}, longYml.String()},
 		{"write parse long", []string{"write", "parse"}, longYml.String()},
@@ -93,7 +95,7 @@ func c12Requests() []req {
 	for _, k := range []string{"C", "F#", "Ebm", "Cb", "D#m", "G"} {
 		rs = append(rs, req{"info key describe " + k, []string{"info", "key", "describe", "--key", k}, ""})
 	}
-	for _, kc := range [][2]string{{"E", "d"}, {"C", "p"}, {"Ab", "s"}, {"F#m", "d"}, {"B", "ds"}, {"Bbm", "s"}, {"Cb", "r"}, {"C", "ddddddd"}, {"A", "rp"}} {
+	for _, kc := range [][2]string{{"E", "d"}, {"C", "p"}, {"Ab", "s"}, {"F#m", "d"}, {"B", "ds"}, {"Bbm", "s"}, {"Cb", "r"}, {"B", "d"}, {"G#m", "d"}, {"Ab", "s"}, {"F#", "p"}, {"C#", "dddddddddddd"}, {"C", "ddddddd"}, {"A", "rp"}} {
 		rs = append(rs, req{"info key conv " + kc[0] + " " + kc[1], []string{"info", "key", "conv", "--key", kc[0], "-c", kc[1]}, ""})
 	}
 	return rs
@@ -120,12 +122,29 @@ func init() {
 			outs := [][]any{}
 			for i := 0; i < reps; i++ {
 				args := append([]string{}, rq.args...)
+				dictViaFifo := false
 				for ai, a := range args {
 					if a == "@DICT1" {
+						dictViaFifo = i%4 == 2
 						args[ai] = c.writeTemp(fmt.Sprintf("dict1-%d.yml", nextID()), "- name: UserSeven\n  meta: {display: \"7\"}\n  attributes: [Perfect1, Major3, Perfect5, Major6]\n- name: UserMinor\n  meta: {display: m}\n  extends: MajorTriad\n  attributes: [Minor7]\n- name: DominantSeventh\n  meta: {display: dom}\n  attributes: [Perfect1, Perfect4]\n")
 					}
 				}
+				var dictFifo map[string][]byte
+				if dictViaFifo {
+					for ai, a := range args {
+						if strings.Contains(a, "dict1-") {
+							if b, err := os.ReadFile(a); err == nil {
+								os.Remove(a)
+								dictFifo = map[string][]byte{a: b} // the same path, now a named pipe
+								_ = ai
+							}
+						}
+					}
+				}
 				variant := []string{}
+				if dictFifo != nil {
+					variant = append(variant, "dict=fifo")
+				}
 				env := []string{"GOMAXPROCS=" + []string{"1", "2", "16", "4"}[i%4]}
 				variant = append(variant, env[0])
 				bin := c.Bin
@@ -142,6 +161,7 @@ func init() {
 				var stdin []byte
 				var tmp []string
 				stdinMode := ""
+				var fifos map[string][]byte
 				if rq.stdin != "" {
 					switch i % 5 {
 					case 1:
@@ -157,6 +177,21 @@ func init() {
 						stdin = []byte(rq.stdin)
 						stdinMode = "slow" // a slow producer writing small blocks with pauses
 						variant = append(variant, "stdin-slow")
+						if i >= 5 { // FILE given as /dev/stdin, or as a named pipe (process substitution)
+							if (i/5)%2 == 1 {
+								args = append(args, "/dev/stdin")
+								stdinMode = ""
+								variant[len(variant)-1] = "FILE=/dev/stdin"
+							} else {
+								fp := c.writeTemp(fmt.Sprintf("fifo%d", nextID()), "")
+								os.Remove(fp)
+								fifos = map[string][]byte{fp: []byte(rq.stdin)}
+								args = append(args, fp)
+								stdin = nil
+								stdinMode = ""
+								variant[len(variant)-1] = "FILE=fifo"
+							}
+						}
 					default:
 						stdin = []byte(rq.stdin)
 						if i > 0 {
@@ -176,7 +211,27 @@ func init() {
 					args = append(args, "-o", ofile)
 					variant = append(variant, "-o")
 				}
-				r := runWith(bin, args, stdin, env, stdinMode)
+				// in-place: -o onto the very file the input is read from (the result must be complete all the same)
+				if ofile != "" && i%8 == 3 {
+					for ai, a := range args {
+						if rq.stdin != "" && a != "-" && strings.Contains(a, "/in") {
+							args[len(args)-1] = a
+							ofile = a
+							variant = append(variant, "in-place")
+							_ = ai
+							break
+						}
+					}
+				}
+				if dictFifo != nil {
+					if fifos == nil {
+						fifos = map[string][]byte{}
+					}
+					for k2, v2 := range dictFifo {
+						fifos[k2] = v2
+					}
+				}
+				r := runWith(bin, args, stdin, env, stdinMode, fifos)
 				out := r.Stdout
 				if ofile != "" && r.Exit == 0 { // a failed run has no result; whether it leaves an existing file alone is not C12's business
 					if b, err := os.ReadFile(ofile); err == nil {
@@ -204,12 +259,12 @@ func init() {
 	})
 }
 
-func runWith(bin string, args []string, stdin []byte, env []string, stdinMode string) (r struct {
+func runWith(bin string, args []string, stdin []byte, env []string, stdinMode string, fifos map[string][]byte) (r struct {
 	Exit     int
 	Stdout   []byte
 	TimedOut bool
 }) {
-	x := run.Run(bin, run.Cmd{Args: args, Stdin: stdin, Env: env, Timeout: 60 * time.Second, StdinMode: stdinMode})
+	x := run.Run(bin, run.Cmd{Args: args, Stdin: stdin, Env: env, Timeout: 60 * time.Second, StdinMode: stdinMode, Fifos: fifos})
 	r.Exit, r.Stdout, r.TimedOut = x.Exit, x.Stdout, x.TimedOut
 	return
 }
